@@ -4,7 +4,7 @@
    PARTIAL: the theorems are about the writer-level model (batches of write / recompute messages,
    marks written at the end of a batch, events built from the rows a recompute found dirty).
    How tokio schedules the readers, the authorisation actor and the writer is not modelled: the
-   schedule of a mutation stream enters as an oracle argument (observed by the harness), and the
+   order in which the harness sees the writes and the event of a stream is observed, and the
    room-modified part of the statement is only observed on the real code (CRoom cases).
    C18_full (proofs/C18P.v) is the statement at full strength; the faithful model refutes it. *)
 From DV Require Import Run_C09 C09P Run_C18 C18P.
@@ -36,23 +36,31 @@ Print Assumptions C18_quiescent_partial.
 
 (* (3) API level, about the functions the harness evaluates: any sequence of mutate / delete calls
    (write, acknowledgement, then recompute request), ingested batches, explicit recompute requests
-   and streams whose mutations were all committed before the stream-end recompute, none of whose
-   writes leaves a changed key unmarked (known_C18 = []), announces every changed key by the time
-   each call that promises it is over *)
+   and mutation streams (recompute request after the last reply, a874354), none of whose writes
+   leaves a changed key unmarked (known_C18 = []; proofs/C09P.v shows which writes always cover),
+   announces every changed key by the time each call that promises it is over *)
 Theorem C18_seq_holds_partial : forall t0 prog, known_C18 (CSeq t0 prog) = [] ->
   spec_C18 (CSeq t0 prog) (run_C18 (CSeq t0 prog)) = true.
 Proof. exact seq_holds_spec. Qed.
 Print Assumptions C18_seq_holds_partial.
+(* every promising call — a stream included, whatever it streams — ends with a recompute processed
+   in a batch after its writes: no schedule premise is left *)
+Theorem C18_promising_ends_with_compute_partial : forall a, promises a = true ->
+  exists bs, batches_of a = bs ++ [[MCompute]].
+Proof. exact promising_ends_with_compute. Qed.
+Print Assumptions C18_promising_ends_with_compute_partial.
 
-(* (4) refutation: the three-message schedule of a stream (recompute request processed before the
-   mutation): committed, dirty, never announced; with the other schedule the same stream is fine *)
-Theorem C18_stream_refuted :
-  spec_C18 w_stream (run_C18 w_stream) = false /\ known_C18 w_stream = [1] /\
-  run_trace w_stream = [TW []; TE []; TW [(1%N, 1%N, 0)]; TQ] /\
-  map l_dirty (log (fst (trace_prog 1000 [ATick 1010; AStream [LCreate 1 (Some 1%N) 1 1] [false]]))) = [true] /\
-  spec_C18 w_stream_ok (run_C18 w_stream_ok) = true /\ known_C18 w_stream_ok = [].
-Proof. exact stream_refuted. Qed.
-Print Assumptions C18_stream_refuted.
+(* (4) the former refutation witness of the stream schedule (directed case of the harness) passes *)
+Theorem C18_stream_holds_partial :
+  spec_C18 w_stream (run_C18 w_stream) = true /\ known_C18 w_stream = [] /\
+  run_trace w_stream = [TW []; TW [(1%N, 1%N, 0)]; TE [(1%N, 1%N, 0)]; TQ].
+Proof. exact stream_holds. Qed.
+Print Assumptions C18_stream_holds_partial.
+(* what remains refuted: a write that leaves a changed key unmarked (C09 class 6: a synchronised
+   version under another entity) is committed and never announced *)
+Theorem C18_unmarked_refuted : spec_C18 w_unmarked (run_C18 w_unmarked) = false /\ known_C18 w_unmarked = [3].
+Proof. exact unmarked_refuted. Qed.
+Print Assumptions C18_unmarked_refuted.
 Theorem C18_full_refuted : ~ C18_full.
 Proof. exact full_refuted. Qed.
 Print Assumptions C18_full_refuted.
